@@ -4,11 +4,18 @@ package xfer
 
 import (
 	"fmt"
+	"testing"
+	"time"
 
 	ibctesting "github.com/cosmos/ibc-go/v11/testing"
 )
 
 func Main() int {
-	fmt.Println(ibctesting.FirstChannelID)
+	t0 := time.Now()
+	coord := ibctesting.NewCoordinator(&testing.T{}, 3)
+	a, b := coord.GetChain(ibctesting.GetChainID(1)), coord.GetChain(ibctesting.GetChainID(2))
+	p := ibctesting.NewTransferPath(a, b)
+	p.Setup()
+	fmt.Println(p.EndpointA.ChannelID, p.EndpointB.ChannelID, time.Since(t0))
 	return 0
 }
